@@ -215,3 +215,126 @@ def c06(sc, io):
                 res.append(("C06-double-count", "orders %s together were filled %s out of one update whose eligible traded volume is %s (both sides)" % ([f[0] for f in fills], tot, el),
                             {"pt": T, "market": mi, "group": list(grp), "fills": fills, "eligible": elig_by_group[grp]}))
     return res
+
+
+def c04(sc, io):
+    res = []
+    prev = {}
+    for mi, u, snap in snapshots(sc, io):
+        upd = sc["markets"][mi]["updates"][u]
+        for o in snap["orders"]:
+            if o["otype"] != "LIMIT":
+                continue
+            key = (mi, o["o"])
+            size, m, rem, c, l, v = (C(o[k]) for k in ("size", "matched", "remaining", "cancelled", "lapsed", "voided"))
+            sp_conv = o["persist"] == "MARKET_ON_CLOSE" and o["side"] == "LAY" and any(abs(f[1] - o["price"]) > 1e-9 for f in o["frags"])
+            det = {"order": o["o"], "pt": snap["pt"], "size": size, "matched": m, "remaining": rem, "cancelled": c, "lapsed": l, "voided": v, "status": o["status"], "log": o["log"]}
+            if size != m + rem + c + l + v:
+                res.append(("C04-identity", "size != matched+remaining+cancelled+lapsed+voided for %s" % o["o"], det))
+            if v == size and size > 0 and (c != 0 or l != 0 or m != 0):
+                # everything that follows on such an order (negative fills, negative lapse) is the same defect
+                if rem != 0 or m < 0 or l < 0:
+                    res.append(("C04-void-after-cancel-or-lapse", "runner removal voids the full size of an order that already had a cancelled/lapsed part: remaining %s, matched %s, lapsed %s" % (rem, m, l), det))
+                prev[key] = (m, v)
+                continue
+            if rem < 0 or m < 0:
+                if v > 0 and (c > 0 or l > 0):
+                    res.append(("C04-void-after-cancel-or-lapse", "runner removal voids the full size of an order that already had a cancelled/lapsed part: remaining %s < 0" % rem, det))
+                else:
+                    res.append(("C04-negative", "%s has negative matched/remaining (%s/%s)" % (o["o"], m, rem), det))
+            elif not sp_conv and (c < 0 or l < 0 or v < 0):
+                res.append(("C04-negative", "%s has a negative bucket" % o["o"], det))
+            awaiting_sp = o["persist"] == "MARKET_ON_CLOSE"
+            if not awaiting_sp and rem >= 0:
+                if o["complete"] != (rem == 0):
+                    log = o["log"]
+                    reopened = any(a == "Execution complete" and b in ("Executable", "Pending") for a, b in zip(log, log[1:]))
+                    if o["status"] == "Violation" and len(log) > 1:
+                        res.append(("C04-live-order-marked-violation", "a control refusing a cancel/update/replace marked the live order VIOLATION: complete with %s remaining" % rem, det))
+                    elif reopened:
+                        res.append(("C04-reopened-after-complete", "a FAILURE response re-opened an order that had completed: not complete although nothing remains", det))
+                    elif o["status"] in ("Cancelling", "Updating", "Replacing", "Pending") and rem != 0:
+                        pass
+                    elif snap.get("cb") == "closed" and rem == 0 and not o["complete"]:
+                        res.append(("C04-unswept-at-close", "an order whose request was executed at the closing update is handed to process_closed_market not complete although nothing remains (no completion sweep on the close path)", det))
+                    else:
+                        res.append(("C04-complete-iff-remaining", "%s complete=%s but remaining=%s (status %s)" % (o["o"], o["complete"], rem, o["status"]), det))
+            pm = prev.get(key)
+            if pm is not None and m < pm[0] and v <= pm[1]:
+                res.append(("C04-matched-decreased", "matched size of %s went from %s to %s without a void" % (o["o"], pm[0], m), det))
+            prev[key] = (m, v)
+    return res
+
+
+def c09(sc, io):
+    """at the update that first shows a runner REMOVED in a market: orders on it void in full; fills on the other
+    runners reduced by max(round(p(1-f/100),2),1.01) iff f>=2.5; exactly once per (market, runner)."""
+    from fractions import Fraction
+    res = []
+    prev = {}
+    removed_seen = {}      # (mi, sel) -> update idx first seen removed
+    for mi, u, snap in snapshots(sc, io):
+        upd = sc["markets"][mi]["updates"][u]
+        if upd.get("status") == "CLOSED":
+            continue
+        newly = []
+        for r in upd["runners"]:
+            if r.get("status") == "REMOVED" and (mi, r["id"]) not in removed_seen:
+                removed_seen[(mi, r["id"])] = u
+                newly.append(r)
+        # a missing adjustment factor with a MOC LAY order in a WIN/PLACE market makes the middleware raise: separate finding
+        adj0 = {r["id"]: r.get("adj") for r in sc["markets"][mi]["updates"][0]["runners"]}
+        mtype = sc["markets"][mi].get("type", "WIN")
+        def raises(newly):
+            for x in snap["orders"]:
+                if x["otype"] == "MARKET_ON_CLOSE" and x["side"] == "LAY" and mtype in ("WIN", "PLACE", "OTHER_PLACE"):
+                    for rr in newly:
+                        if rr["id"] != x["sel"] and (rr.get("adj") is None or (mtype == "WIN" and adj0.get(x["sel"]) is None)):
+                            return True
+            return False
+        for o in snap["orders"]:
+            key = (mi, o["o"])
+            before = prev.get(key)
+            fr = [(f[0], BP(f[1]), C(f[2])) for f in o["frags"]]
+            det = {"order": o["o"], "pt": snap["pt"], "market": mi, "sel": o["sel"], "status": o["status"], "matched": o["matched"], "voided": o["voided"],
+                   "remaining": o["remaining"], "cancelled": o["cancelled"], "lapsed": o["lapsed"], "frags": o["frags"]}
+            for r in newly:
+                adj = r.get("adj")
+                if o["sel"] == r["id"]:
+                    if o["otype"] == "LIMIT":
+                        if C(o["voided"]) == C(o["size"]) and (C(o["cancelled"]) > 0 or C(o["lapsed"]) > 0):
+                            res.append(("C09-void-after-cancel-or-lapse", "voided order %s has remaining %s != 0 (cancelled %s, lapsed %s before the removal)" % (o["o"], o["remaining"], o["cancelled"], o["lapsed"]), det))
+                        elif C(o["matched"]) != 0 or fr or C(o["voided"]) != C(o["size"]):
+                            earlier = [(m2, s2) for (m2, s2), uu in removed_seen.items() if s2 == r["id"] and m2 != mi]
+                            kind = "C09-once-across-markets" if earlier else ("C09-removal-raised" if raises(newly) else "C09-void")
+                            res.append((kind, "order %s on removed runner %s of market %s is not voided (matched %s, voided %s)%s" % (
+                                o["o"], r["id"], mi, o["matched"], o["voided"], " - the same runner and factor were already removed in another market of the run" if earlier else ""), det))
+                        elif C(o["remaining"]) != 0:
+                            res.append(("C09-void-after-cancel-or-lapse", "voided order %s has remaining %s != 0 (cancelled %s, lapsed %s before the removal)" % (o["o"], o["remaining"], o["cancelled"], o["lapsed"]), det))
+                elif before is not None and o["otype"] == "LIMIT" and before["frags"]:
+                    # expected reduction of the fragments that existed before this update
+                    exp = []
+                    for f in before["frags"]:
+                        p = f[1]
+                        for rr in newly:
+                            a = rr.get("adj")
+                            if a is not None and a != 0 and a >= 250 and rr["id"] != o["sel"]:
+                                q = Fraction(p * (10000 - a), 1000000)        # cents, exact
+                                lo = q.numerator // q.denominator
+                                cands = {lo, lo + 1} if q != lo else {lo}
+                                cands = {min(cands, key=lambda c: abs(Fraction(c) - q))} if len(cands) == 2 and abs(Fraction(lo) - q) != abs(Fraction(lo + 1) - q) else cands
+                                p = [max(c * 100, 10100) for c in cands]
+                                p = p[0] if len(p) == 1 else None
+                        exp.append(p)
+                    got = [f[1] for f in fr[:len(before["frags"])]]
+                    if len(got) == len(exp) and any(e is not None and g != e for g, e in zip(got, exp)):
+                        earlier = [(m2, s2) for (m2, s2), uu in removed_seen.items() if any(s2 == rr["id"] for rr in newly) and m2 != mi]
+                        raised = raises(newly)
+                        kind = "C09-once-across-markets" if earlier else ("C09-removal-raised" if raised else "C09-reduction")
+                        res.append((kind, "fills of %s after the removal are %s, the reduction formula gives %s" % (o["o"], got, exp), det))
+            # later updates: prices of old fragments must not change again (applied once)
+            if not newly and before is not None and before["frags"] and len(fr) >= len(before["frags"]):
+                if [f[1] for f in fr[:len(before["frags"])]] != [f[1] for f in before["frags"]]:
+                    res.append(("C09-applied-again", "fragment prices of %s changed in an update without a new removal" % o["o"], det))
+            prev[key] = {"frags": fr}
+    return res
